@@ -295,12 +295,11 @@ PROPS["C18"] = dict(
     level_note="PARTIAL: serde_json::from_str / Value::to_string are uninterpreted functions (their insensitivity to whitespace and member order and the canonical "
                "printed form are serde_json's, not decided); the ten per-endpoint extractor closures are verified as R8 slices against 'the result is the object with the "
                "single member height, a non-negative integer or null' (JSON endpoints) / 'empty or print of that object' (plain-text endpoints), with json!, Value indexing "
-               "and the integer accessors modelled by typed stand-ins (R13); the closure inside apply_to_body_json is annotated by a reported R9 rewrite; wrapper and "
-               "extractor contracts compose by inspection (the closure is a separate slice)",
+               "and the integer accessors modelled by typed stand-ins (R13); the closure inside apply_to_body_json is annotated by a reported R9 rewrite; the TRANSFORM of each of the ten endpoints "
+               "(wrapper applied to its extractor) is verified as one slice against 'no headers, status kept, body empty or the canonical object with the single member height'",
     explanation="the wrappers guarantee stripping (headers, everything outside the extractor's output) and totality for everything that is not produced by the extractor closure.",
     unverified_links=[
         "serde_json's Index / as_u64 / json! themselves (typed stand-ins), str::parse (uninterpreted)",
-        "the composition 'wrapper contract + extractor contract' (the extractor is handed over as a closure: by inspection)",
         "candid::Nat comparison with 200u8, String::from_utf8 / into_bytes, serde_json parse/print (assumed specs)",
     ],
     assumptions=COMMON_ASSUMPTIONS + ["the extractor closure is total"],
